@@ -12,6 +12,7 @@ package reftable
 // groups of bookkeeping ghosts (declared further down) for use in modifies clauses
 //@ ghostgroup yielded = noneYet, yRefSeq, yRefName, yRefIdx, yRefVal, yRefValLen, yRefTV, yRefTVLen, yRefTarget, yRefDel, wRefAtYield, refsDone, yLogSeq, yLogName, yLogIdx, yLogNew, yLogNewLen, yLogOld, yLogOldLen, yLogPName, yLogEmail, yLogTime, yLogTZ, yLogMsg, wLogAtYield, logsDone
 //@ ghostgroup pv = pvPrev, pvLast
+//@ ghostgroup stream = itRef, itTab, itLo, itStrict
 //@ ghostgroup taken = wRefSeq, wRefName, wRefIdx, wRefVal, wRefValLen, wRefTV, wRefTVLen, wRefTarget, wLogSeq, wLogName, wLogIdx, wLogNew, wLogNewLen, wLogOld, wLogOldLen, wLogPName, wLogEmail, wLogTime, wLogTZ, wLogMsg
 
 // The value of a k-byte varint (the "offset" encoding of the format: each continuation adds one before shifting), written
@@ -385,7 +386,7 @@ package reftable
 //@   props C18 C19
 //@   requires wfBR(br) && typeOK(br)
 //@   nopanic
-//@   modifies lastDelta, yielded
+//@   modifies lastDelta, yielded, stream
 //@   ensures result1 == nil ==> result0 != nil && fresh(result0) && result0.br == br
 //@   loop 1 invariant it.br == br && wfBR(br) && allocated(br) && fresh(it)
 //@   loop 1 decreases len(br.block) + 1 - it.nextOffset
@@ -394,7 +395,7 @@ package reftable
 //@   props C18 C19
 //@   requires wfBI(bi) && typeOK(bi.br)
 //@   nopanic
-//@   modifies bi.ALLFIELDS, lastDelta, yielded
+//@   modifies bi.ALLFIELDS, lastDelta, yielded, stream
 //@   ensures result == nil ==> bi.br == old(bi.br)
 
 // ---------------------------------------------------------------------------------------------
@@ -518,14 +519,14 @@ package reftable
 //@   props C18 C19
 //@   requires wfTI(i)
 //@   nopanic
-//@   modifies buflen, bufdata, lastDelta, lastSought, i.blockOff, i.bi.ALLFIELDS, i.finished, seekOn, seekName, seekIdx, yielded
+//@   modifies buflen, bufdata, lastDelta, lastSought, i.blockOff, i.bi.ALLFIELDS, i.finished, seekOn, seekName, seekIdx, yielded, stream
 //@   ensures result1 == nil ==> wfTI(i)
 
 //@ func (*tableIter).nextInBlock
 //@   props C18 C19 C11
 //@   requires wfTI(i) && recMatches(rec, i.typ)
 //@   nopanic
-//@   modifies i.bi.lastKey, i.bi.nextOffset, rec, lastDelta, yielded
+//@   modifies i.bi.lastKey, i.bi.nextOffset, rec, lastDelta, yielded, stream
 //@   ensures wfTI(i)
 //@   ensures[abs-index] {C11,C01} result0 && istype(rec, *RefRecord) ==> asptr(rec, *RefRecord).UpdateIndex == wrap64(lastDelta + i.r.header.MinUpdateIndex)
 
@@ -533,7 +534,7 @@ package reftable
 //@   props C18 C19
 //@   requires wfTI(i) && recMatches(rec, i.typ)
 //@   nopanic
-//@   modifies buflen, bufdata, lastDelta, lastSought, i.blockOff, i.bi.ALLFIELDS, i.finished, rec, seekOn, seekName, seekIdx, yielded
+//@   modifies buflen, bufdata, lastDelta, lastSought, i.blockOff, i.bi.ALLFIELDS, i.finished, rec, seekOn, seekName, seekIdx, yielded, stream
 //@   ensures result1 == nil ==> wfTI(i)
 //@   loop 1 invariant wfTI(i) && recMatches(rec, i.typ)
 
@@ -541,21 +542,21 @@ package reftable
 //@   props C18 C19
 //@   requires wfReader(r)
 //@   nopanic
-//@   modifies buflen, bufdata, lastDelta, lastSought, seekOn, seekName, seekIdx, yielded
+//@   modifies buflen, bufdata, lastDelta, lastSought, seekOn, seekName, seekIdx, yielded, stream
 //@   ensures result1 == nil && result0 != nil ==> fresh(result0) && wfTI(result0) && (wantTyp == 0 || result0.typ == wantTyp)
 
 //@ func (*Reader).start
 //@   props C18 C19
 //@   requires wfReader(r)
 //@   nopanic
-//@   modifies buflen, bufdata, lastDelta, lastSought, seekOn, seekName, seekIdx, yielded
+//@   modifies buflen, bufdata, lastDelta, lastSought, seekOn, seekName, seekIdx, yielded, stream
 //@   ensures result1 == nil && result0 != nil ==> fresh(result0) && wfTI(result0) && ((index && result0.typ == 'i') || (!index && (typ == 0 || result0.typ == typ)))
 
 //@ func (*Reader).seekLinear
 //@   props C18 C19
 //@   requires wfReader(r) && wfTI(tabIter) && recMatches(want, tabIter.typ)
 //@   nopanic
-//@   modifies buflen, bufdata, lastDelta, lastSought, tabIter.ALLFIELDS, seekOn, seekName, seekIdx, yielded
+//@   modifies buflen, bufdata, lastDelta, lastSought, tabIter.ALLFIELDS, seekOn, seekName, seekIdx, yielded, stream
 //@   ensures result1 == nil ==> wfTI(tabIter) && tabIter.typ == old(tabIter.typ)
 //@   ensures result0 ==> result1 == nil
 //@   loop 1 invariant wfTI(tabIter) && tabIter.typ == old(tabIter.typ) && recMatches(rec, tabIter.typ) && fresh(iref(rec))
@@ -567,7 +568,7 @@ package reftable
 //@   props C18 C19
 //@   requires wfReader(r) && recAny(rec)
 //@   nopanic
-//@   modifies buflen, bufdata, lastDelta, lastSought, seekOn, seekName, seekIdx, yielded
+//@   modifies buflen, bufdata, lastDelta, lastSought, seekOn, seekName, seekIdx, yielded, stream
 //@   ensures result1 == nil && result0 != nil ==> fresh(result0)
 //@   ensures result1 == nil && result0 != nil ==> wfTI(result0)
 //@   ensures result1 == nil && result0 != nil ==> result0.typ == typOf(rec)
@@ -576,7 +577,7 @@ package reftable
 //@   props C18 C19
 //@   requires wfReader(r) && recAny(want)
 //@   nopanic
-//@   modifies buflen, bufdata, lastDelta, lastSought, seekOn, seekName, seekIdx, yielded
+//@   modifies buflen, bufdata, lastDelta, lastSought, seekOn, seekName, seekIdx, yielded, stream
 //@   ensures result1 == nil && result0 != nil ==> fresh(result0) && wfTI(result0) && result0.typ == typOf(want)
 //@   loop 1 invariant wfTI(idxIter) && idxIter.typ == 'i' && fresh(idxIter)
 
@@ -584,47 +585,47 @@ package reftable
 //@   props C18 C19
 //@   requires wfReader(r) && recAny(rec)
 //@   nopanic
-//@   modifies buflen, bufdata, lastDelta, lastSought, seekOn, seekName, seekIdx, yielded
+//@   modifies buflen, bufdata, lastDelta, lastSought, seekOn, seekName, seekIdx, yielded, stream
 //@   ensures result1 == nil ==> result0 != nil
 
 //@ func (*Reader).SeekRef
 //@   props C18 C19
 //@   requires wfReader(r)
 //@   nopanic
-//@   modifies buflen, bufdata, lastDelta, lastSought, seekOn, seekName, seekIdx, yielded
+//@   modifies buflen, bufdata, lastDelta, lastSought, seekOn, seekName, seekIdx, yielded, stream
 
 //@ func (*Reader).SeekLog
 //@   props C18 C19
 //@   requires wfReader(r)
 //@   nopanic
-//@   modifies buflen, bufdata, lastDelta, lastSought, seekOn, seekName, seekIdx, yielded
+//@   modifies buflen, bufdata, lastDelta, lastSought, seekOn, seekName, seekIdx, yielded, stream
 
 //@ func (*Reader).RefsFor
 //@   props C18 C19 C11
 //@   requires wfReader(r) && r.objectIDLen >= 0
 //@   nopanic
 //@   ensures[never-nil] result1 == nil ==> result0 != nil && iref(result0.impl) != 0
-//@   modifies buflen, bufdata, lastDelta, lastSought, seekOn, seekName, seekIdx, yielded
+//@   modifies buflen, bufdata, lastDelta, lastSought, seekOn, seekName, seekIdx, yielded, stream
 
 //@ func (*Reader).refsForIndexed
 //@   props C18 C19 C11
 //@   requires wfReader(r) && r.objectIDLen >= 0
 //@   nopanic
 //@   ensures result0 != nil ==> iref(result0.impl) != 0
-//@   modifies buflen, bufdata, lastDelta, lastSought, seekOn, seekName, seekIdx, yielded
+//@   modifies buflen, bufdata, lastDelta, lastSought, seekOn, seekName, seekIdx, yielded, stream
 
 //@ func (*indexedTableRefIter).nextBlock
 //@   props C18 C19 C11
 //@   requires i != nil && wfReader(i.r)
 //@   nopanic
-//@   modifies buflen, bufdata, lastDelta, lastSought, i.offsets, i.cur.ALLFIELDS, i.finished, seekOn, seekName, seekIdx, yielded
+//@   modifies buflen, bufdata, lastDelta, lastSought, i.offsets, i.cur.ALLFIELDS, i.finished, seekOn, seekName, seekIdx, yielded, stream
 //@   ensures result == nil && (old(len(i.offsets)) > 0 || old(wfBI(i.cur))) ==> wfBI(i.cur)
 
 //@ func (*indexedTableRefIter).Next
 //@   props C18 C19 C11
 //@   requires i != nil && wfReader(i.r) && wfBI(i.cur) && istype(rec, *RefRecord) && iref(rec) != 0
 //@   nopanic
-//@   modifies buflen, bufdata, lastDelta, lastSought, i.offsets, i.cur.ALLFIELDS, i.finished, rec, seekOn, seekName, seekIdx, yielded
+//@   modifies buflen, bufdata, lastDelta, lastSought, i.offsets, i.cur.ALLFIELDS, i.finished, rec, seekOn, seekName, seekIdx, yielded, stream
 //@   ensures[same-update-index-as-seek] {C11} result0 ==> asptr(rec, *RefRecord).UpdateIndex == wrap64(lastDelta + i.r.header.MinUpdateIndex)
 //@   ensures[points-at-oid] {C11} result0 ==> bytesEq(asptr(rec, *RefRecord).Value, i.oid) || bytesEq(asptr(rec, *RefRecord).TargetValue, i.oid)
 //@   loop 1 invariant i != nil && wfReader(i.r) && wfBI(i.cur) && ref != nil && allocated(ref)
@@ -843,16 +844,30 @@ package reftable
 // A sub-iterator's Next may write its own state, the record it is given and fresh memory. Assumptions (ownership, not
 // checked): it does not write the priority queue of the merged iterator that owns it, and an iterator obtained from
 // SeekRef/SeekLog performs no further SeekRef (lastSought is left alone).
+// C12 rests on what C02/C03 state about iterating a table's refs; it is *assumed* here, as a ghost stream model, and
+// only for iterators handed out by Table.SeekRef (itRef): such an iterator yields the live ref names of its table at or
+// after the seek key, each once, in ascending order, and reports exhaustion only when none is left.
+//   liveIn(t, n): table t shows a ref named n (what a SeekRef/NextRef scan of t yields; tables are immutable)
+//   itTab[q], itLo[q], itStrict[q]: the table of iterator q and the bound below which it has nothing left
+//@ ghost itRef map[ref]bool
+//@ ghost itTab map[ref]int
+//@ ghost itLo map[ref]string
+//@ ghost itStrict map[ref]bool
+//@ spec liveIn(t int, n string) bool
+//@ spec remaining(q ref, m string) bool = liveIn(itTab[q], m) && (itStrict[q] ? m > itLo[q] : m >= itLo[q])
 //@ iface iterator.Next
 //@   params rec
-//@   modifies buflen, bufdata, lastDelta, rec, anyof(*tableIter), anyof(*indexedTableRefIter), anyof(*blockIter), yielded
+//@   modifies buflen, bufdata, lastDelta, rec, anyof(*tableIter), anyof(*indexedTableRefIter), anyof(*blockIter), yielded, stream
+//@   ensures[stream-yields-the-least-remaining-name] old(itRef[iref(self)]) && result0 && istype(rec, *RefRecord) ==> old(remaining(iref(self), asptr(rec, *RefRecord).RefName)) && (forall m string :: old(remaining(iref(self), m)) ==> m >= asptr(rec, *RefRecord).RefName)
+//@   ensures[stream-advances] old(itRef[iref(self)]) && result0 && istype(rec, *RefRecord) ==> itRef[iref(self)] && itTab[iref(self)] == old(itTab[iref(self)]) && itLo[iref(self)] == asptr(rec, *RefRecord).RefName && itStrict[iref(self)]
+//@   ensures[stream-ends-only-when-empty] old(itRef[iref(self)]) && !result0 && result1 == nil ==> (forall m string :: !old(remaining(iref(self), m)))
 
 //@ spec wfMI(m *mergedIter) bool = m != nil && heapOK(m.pq) && (m.typ == 'r' || m.typ == 'g' || m.typ == 'o' || m.typ == 'i') && (forall k int :: 0 <= k && k < len(m.pq.heap) ==> 0 <= m.pq.heap[k].index && m.pq.heap[k].index < len(m.stack))
 
 //@ func (*mergedIter).advanceSubIter
 //@   props C03 C19
 //@   requires wfMI(m) && 0 <= index && index < len(m.stack)
-//@   modifies buflen, bufdata, lastDelta, lastSought, m.pq.heap, m.pq.heap[:cap(m.pq.heap)], m.stack[index], anyof(*tableIter), anyof(*indexedTableRefIter), anyof(*blockIter), seekOn, seekName, seekIdx, yielded
+//@   modifies buflen, bufdata, lastDelta, lastSought, m.pq.heap, m.pq.heap[:cap(m.pq.heap)], m.stack[index], anyof(*tableIter), anyof(*indexedTableRefIter), anyof(*blockIter), seekOn, seekName, seekIdx, yielded, stream
 //@   ensures len(m.stack) == old(len(m.stack)) && m != nil && (m.typ == 'r' || m.typ == 'g' || m.typ == 'o' || m.typ == 'i')
 //@   ensures[d1] recsOK(m.pq)
 //@   ensures[d2] ordered(m.pq)
@@ -906,7 +921,7 @@ package reftable
 //@ func (*mergedIter).init
 //@   props C03 C19
 //@   requires it != nil && len(it.pq.heap) == 0 && (it.typ == 'r' || it.typ == 'g' || it.typ == 'o' || it.typ == 'i')
-//@   modifies buflen, bufdata, lastDelta, lastSought, it.pq.heap, it.pq.heap[:cap(it.pq.heap)], it.stack[:], anyof(*tableIter), anyof(*indexedTableRefIter), anyof(*blockIter), seekOn, seekName, seekIdx, yielded
+//@   modifies buflen, bufdata, lastDelta, lastSought, it.pq.heap, it.pq.heap[:cap(it.pq.heap)], it.stack[:], anyof(*tableIter), anyof(*indexedTableRefIter), anyof(*blockIter), seekOn, seekName, seekIdx, yielded, stream
 //@   ensures result == nil ==> wfMI(it)
 //@   ensures it.typ == old(it.typ) && it.suppressDeletions == old(it.suppressDeletions) && len(it.stack) == old(len(it.stack))
 //@   loop 1 invariant[a] it != nil && it.typ == old(it.typ) && it.suppressDeletions == old(it.suppressDeletions) && it.stack == old(it.stack) && -1 <= rangeindex && rangeindex < len(it.stack)
@@ -916,7 +931,7 @@ package reftable
 
 //@ iface Table.seekRecord
 //@   params rec
-//@   modifies buflen, bufdata, lastDelta, lastSought, anyof(*tableIter), anyof(*indexedTableRefIter), anyof(*blockIter), seekOn, seekName, seekIdx, yielded
+//@   modifies buflen, bufdata, lastDelta, lastSought, anyof(*tableIter), anyof(*indexedTableRefIter), anyof(*blockIter), seekOn, seekName, seekIdx, yielded, stream
 //@   ensures result1 == nil ==> result0 != nil
 
 //@ iface Table.Name
@@ -927,7 +942,7 @@ package reftable
 //@ func (*Merged).seekRecord
 //@   props C03 C19
 //@   requires m != nil && recAny(rec)
-//@   modifies buflen, bufdata, lastDelta, lastSought, anyof(*tableIter), anyof(*indexedTableRefIter), anyof(*blockIter), seekOn, seekName, seekIdx, yielded
+//@   modifies buflen, bufdata, lastDelta, lastSought, anyof(*tableIter), anyof(*indexedTableRefIter), anyof(*blockIter), seekOn, seekName, seekIdx, yielded, stream
 //@   ensures[is-merged-iter] result1 == nil ==> istype(result0, *mergedIter) && fresh(iref(result0)) && iref(result0) != 0
 //@   ensures[view-flag] result1 == nil ==> asptr(result0, *mergedIter).suppressDeletions == m.suppressDeletions
 //@   ensures[typ] result1 == nil ==> asptr(result0, *mergedIter).typ == typOf(rec)
@@ -944,7 +959,7 @@ package reftable
 //@ func (*Merged).SeekRef
 //@   props C03 C19 C07
 //@   requires m != nil
-//@   modifies buflen, bufdata, lastDelta, lastSought, anyof(*tableIter), anyof(*indexedTableRefIter), anyof(*blockIter), yielded
+//@   modifies buflen, bufdata, lastDelta, lastSought, anyof(*tableIter), anyof(*indexedTableRefIter), anyof(*blockIter), yielded, stream
 //@   sets seekOn = m
 //@   sets seekName = name
 //@   sets noneYet = true
@@ -958,7 +973,7 @@ package reftable
 //@   ghostparams afterRefs
 //@   requires m != nil
 //@   requires[ref-pass-exhausted] afterRefs == 1 ==> refsDone
-//@   modifies buflen, bufdata, lastDelta, lastSought, anyof(*tableIter), anyof(*indexedTableRefIter), anyof(*blockIter), yielded
+//@   modifies buflen, bufdata, lastDelta, lastSought, anyof(*tableIter), anyof(*indexedTableRefIter), anyof(*blockIter), yielded, stream
 //@   sets seekOn = m
 //@   sets seekName = refname
 //@   sets seekIdx = updateIndex
@@ -1273,7 +1288,7 @@ package reftable
 //@   trusted
 //@   requires wfStack(st)
 //@   requires[no-reuse-means-all-replaced] !reuseOpen ==> (forall j int :: 0 <= j && j < len(st.stack) ==> retired[st.stack[j].name])
-//@   modifies st.stack, st.merged, rdClosed, tblExists, listNames, listLen, lastReadNames, lastReadLen, buflen, bufdata, lastDelta, lastSought, seekOn, seekName, seekIdx, yielded
+//@   modifies st.stack, st.merged, rdClosed, tblExists, listNames, listLen, lastReadNames, lastReadLen, buflen, bufdata, lastDelta, lastSought, seekOn, seekName, seekIdx, yielded, stream
 //@   ensures wfStack(st) && listStable()
 //@   ensures[gc-keeps-listed-and-unknown] forall p string :: old(tblExists[p]) && !tblExists[p] ==> (exists j int :: 0 <= j && j < old(len(st.stack)) && p == pathJoin(theDir, old(st.stack[j].name)))
 //@   ensures old(held[listLock()]) ==> namesMatch(st)
@@ -1285,7 +1300,7 @@ package reftable
 //@   props C10 C05 C06
 //@   requires heldWf() && dir == theDir && theListFile == pathJoin(dir, "tables.list") && (forall q *Reader :: rdClosed[q] ==> isalloc(q))
 //@   requires[usable-block-size] cfg.BlockSize == 0 || 34 <= cfg.BlockSize
-//@   modifies rdClosed, tblExists, listNames, listLen, lastReadNames, lastReadLen, buflen, bufdata, lastDelta, lastSought, seekOn, seekName, seekIdx, yielded
+//@   modifies rdClosed, tblExists, listNames, listLen, lastReadNames, lastReadLen, buflen, bufdata, lastDelta, lastSought, seekOn, seekName, seekIdx, yielded, stream
 //@   ensures result1 == nil ==> result0 != nil && fresh(result0) && wfStack(result0)
 //@   ensures heldSame() && tmpSubset()
 
@@ -1375,7 +1390,7 @@ package reftable
 // coarse: opens and scans the new table (read-only on the directory)
 //@ func (*Stack).checkAddition
 //@   trusted
-//@   modifies buflen, bufdata, lastDelta, lastSought, listNames, listLen, lastReadNames, lastReadLen, seekOn, seekName, seekIdx, yielded
+//@   modifies buflen, bufdata, lastDelta, lastSought, listNames, listLen, lastReadNames, lastReadLen, seekOn, seekName, seekIdx, yielded, stream
 //@   ensures listStable()
 
 // C04/C05/C16: a table is added to the transaction only after it has been written, closed, checked and renamed into
@@ -1383,7 +1398,7 @@ package reftable
 //@ func (*Addition).Add
 //@   props C04 C05 C16 C08 C06
 //@   requires addInv(tr) && tr.lockFileName != ""
-//@   modifies held, ownsTmp, tblExists, fileClosed, fileOf, listNames, listLen, lastReadNames, lastReadLen, appends, commits, buflen, bufdata, lastDelta, lastSought, tr.names, tr.names[:cap(tr.names)], tr.newTables, tr.newTables[:cap(tr.newTables)], tr.nextUpdateIndex, anyof(*blockWriter), retired, rdClosed, taken, seekOn, seekName, seekIdx, yielded, anyof([]byte), anyof([]uint32), anyof([]indexRecord), pv
+//@   modifies held, ownsTmp, tblExists, fileClosed, fileOf, listNames, listLen, lastReadNames, lastReadLen, appends, commits, buflen, bufdata, lastDelta, lastSought, tr.names, tr.names[:cap(tr.names)], tr.newTables, tr.newTables[:cap(tr.newTables)], tr.nextUpdateIndex, anyof(*blockWriter), retired, rdClosed, taken, seekOn, seekName, seekIdx, yielded, anyof([]byte), anyof([]uint32), anyof([]indexRecord), pv, stream
 //@   ensures[inv-a1] tr != nil && tr.stack == old(tr.stack) && tr.lockFileName == old(tr.lockFileName) && tr.lockFile == old(tr.lockFile) && appends == old(appends) && commits == old(commits)
 //@   ensures[inv-a2] heldWf()
 //@   ensures[inv-a3] sizesOKforStack(tr.stack)
@@ -1408,7 +1423,7 @@ package reftable
 //@ func (*Addition).Commit
 //@   props C04 C05 C08 C16 C06 C10
 //@   requires addInv(tr) && (len(tr.newTables) > 0 ==> tr.lockFileName != "")
-//@   modifies held, ownsTmp, tblExists, fileClosed, listNames, listLen, lastReadNames, lastReadLen, wNames, wLen, appends, commits, buflen, bufdata, lastDelta, lastSought, tr.lockFile, tr.lockFileName, tr.newTables, tr.stack.stack, tr.stack.merged, retired, rdClosed, seekOn, seekName, seekIdx, yielded
+//@   modifies held, ownsTmp, tblExists, fileClosed, listNames, listLen, lastReadNames, lastReadLen, wNames, wLen, appends, commits, buflen, bufdata, lastDelta, lastSought, tr.lockFile, tr.lockFileName, tr.newTables, tr.stack.stack, tr.stack.merged, retired, rdClosed, seekOn, seekName, seekIdx, yielded, stream
 //@   ensures[inv] closeInv(tr)
 //@   ensures[committed-a] old(len(tr.newTables)) > 0 ==> appends == old(appends) + 1
 //@   ensures[committed-b] old(len(tr.newTables)) > 0 ==> tr.lockFileName == ""
@@ -1587,7 +1602,7 @@ package reftable
 //@   sets mergedExp = expiration
 //@   loop 2 invariant[ref-step] noneYet || refWrittenAsIs() || (refDropped() && first == 0 && yRefDel)
 //@   loop 3 invariant[log-step] (noneYet || (logWrittenAsIs() && !expired(expiration, yLogTime, yLogIdx)) || (logDropped() && expired(expiration, yLogTime, yLogIdx)))
-//@   modifies wr.ALLFIELDS, buflen, bufdata, lastDelta, lastSought, st.Stats.EntriesWritten, anyof(*blockWriter), anyof(*tableIter), anyof(*indexedTableRefIter), anyof(*blockIter), taken, yielded, seekOn, seekName, seekIdx, anyof([]byte), anyof([]uint32), anyof([]indexRecord), pv
+//@   modifies wr.ALLFIELDS, buflen, bufdata, lastDelta, lastSought, st.Stats.EntriesWritten, anyof(*blockWriter), anyof(*tableIter), anyof(*indexedTableRefIter), anyof(*blockIter), taken, yielded, seekOn, seekName, seekIdx, anyof([]byte), anyof([]uint32), anyof([]indexRecord), pv, stream
 //@   ensures[no-lock-failure] result != ErrLockFailure
 //@   loop 1 invariant[range] first <= i && i <= last + 1 && (subtabs == nil || fresh(subtabs)) && len(subtabs) == i - first && (forall k int :: 0 <= k && k < len(subtabs) ==> iref(subtabs[k]) == st.stack[first + k] && istype(subtabs[k], *Reader))
 //@   loop 2 invariant it != nil && iref(it.impl) != 0 && wOK(wr)
@@ -1600,7 +1615,7 @@ package reftable
 //@ func (*Stack).compactLocked
 //@   props C16 C05 C06 C07 C13
 //@   requires wfStack(st) && 0 <= first && first <= last && last < len(st.stack)
-//@   modifies held, ownsTmp, tblExists, fileClosed, fileOf, listNames, listLen, lastReadNames, lastReadLen, buflen, bufdata, lastDelta, lastSought, st.Stats.EntriesWritten, anyof(*blockWriter), anyof(*tableIter), anyof(*indexedTableRefIter), anyof(*blockIter), taken, yielded, seekOn, seekName, seekIdx, mergedFirst, mergedLast, mergedExp, anyof([]byte), anyof([]uint32), anyof([]indexRecord), pv
+//@   modifies held, ownsTmp, tblExists, fileClosed, fileOf, listNames, listLen, lastReadNames, lastReadLen, buflen, bufdata, lastDelta, lastSought, st.Stats.EntriesWritten, anyof(*blockWriter), anyof(*tableIter), anyof(*indexedTableRefIter), anyof(*blockIter), taken, yielded, seekOn, seekName, seekIdx, mergedFirst, mergedLast, mergedExp, anyof([]byte), anyof([]uint32), anyof([]indexRecord), pv, stream
 //@   ensures listStable() && wfStack(st) && heldSame()
 //@   ensures[no-lock-failure] result1 != ErrLockFailure
 //@   ensures[merged-what-was-asked] result1 == nil || result1 == ErrEmptyTable ==> mergedFirst == first && mergedLast == last && mergedExp == expiration
@@ -1642,7 +1657,7 @@ package reftable
 //@   requires wfStack(st) && !held[listLock()]
 //@   requires (first < last || expiration != nil) ==> 0 <= first && first <= last && last < len(st.stack)
 //@   requires[expiry-rewrites-the-whole-stack] expiration != nil ==> first == 0 && last == len(st.stack) - 1
-//@   modifies held, ownsTmp, tblExists, fileClosed, fileOf, listNames, listLen, lastReadNames, lastReadLen, lockFails, wNames, wLen, appends, commits, buflen, bufdata, lastDelta, lastSought, st.stack, st.merged, st.Stats.Attempts, st.Stats.EntriesWritten, anyof(*blockWriter), anyof(*tableIter), anyof(*indexedTableRefIter), anyof(*blockIter), retired, rdClosed, taken, yielded, seekOn, seekName, seekIdx, mergedFirst, mergedLast, mergedExp, anyof([]byte), anyof([]uint32), anyof([]indexRecord), pv
+//@   modifies held, ownsTmp, tblExists, fileClosed, fileOf, listNames, listLen, lastReadNames, lastReadLen, lockFails, wNames, wLen, appends, commits, buflen, bufdata, lastDelta, lastSought, st.stack, st.merged, st.Stats.Attempts, st.Stats.EntriesWritten, anyof(*blockWriter), anyof(*tableIter), anyof(*indexedTableRefIter), anyof(*blockIter), retired, rdClosed, taken, yielded, seekOn, seekName, seekIdx, mergedFirst, mergedLast, mergedExp, anyof([]byte), anyof([]uint32), anyof([]indexRecord), pv, stream
 //@   callsite os.Rename 2 ghost a = mergedFirst; b = mergedLast; k = (emptyTable ? 0 : 1)
 //@   ensures[expiry-as-asked] result0 && (first < last || expiration != nil) ==> mergedExp == expiration
 //@   ensures[locks-released] heldSubset()
@@ -1691,7 +1706,7 @@ package reftable
 //@   requires wfStack(st) && !held[listLock()]
 //@   requires (first < last || expiration != nil) ==> 0 <= first && first <= last && last < len(st.stack)
 //@   requires[expiry-rewrites-the-whole-stack] expiration != nil ==> first == 0 && last == len(st.stack) - 1
-//@   modifies held, ownsTmp, tblExists, fileClosed, fileOf, listNames, listLen, lastReadNames, lastReadLen, lockFails, wNames, wLen, appends, commits, buflen, bufdata, lastDelta, lastSought, st.stack, st.merged, st.Stats.Attempts, st.Stats.Failures, st.Stats.EntriesWritten, anyof(*blockWriter), anyof(*tableIter), anyof(*indexedTableRefIter), anyof(*blockIter), retired, rdClosed, taken, yielded, seekOn, seekName, seekIdx, mergedFirst, mergedLast, mergedExp, anyof([]byte), anyof([]uint32), anyof([]indexRecord), pv
+//@   modifies held, ownsTmp, tblExists, fileClosed, fileOf, listNames, listLen, lastReadNames, lastReadLen, lockFails, wNames, wLen, appends, commits, buflen, bufdata, lastDelta, lastSought, st.stack, st.merged, st.Stats.Attempts, st.Stats.Failures, st.Stats.EntriesWritten, anyof(*blockWriter), anyof(*tableIter), anyof(*indexedTableRefIter), anyof(*blockIter), retired, rdClosed, taken, yielded, seekOn, seekName, seekIdx, mergedFirst, mergedLast, mergedExp, anyof([]byte), anyof([]uint32), anyof([]indexRecord), pv, stream
 //@   ensures heldSubset() && tmpSubset() && appends == old(appends) && wfStack(st)
 //@   ensures[no-lock-failure] result1 != ErrLockFailure
 //@   ensures[progress] result0 && (first < last || expiration != nil) ==> commits == old(commits) + 1
@@ -1710,7 +1725,7 @@ package reftable
 //@ func (*Stack).AutoCompact
 //@   props C04 C08 C16 C17 C10 C07 C13
 //@   requires wfStack(st) && !held[listLock()]
-//@   modifies held, ownsTmp, tblExists, fileClosed, fileOf, listNames, listLen, lastReadNames, lastReadLen, lockFails, wNames, wLen, appends, commits, buflen, bufdata, lastDelta, lastSought, st.stack, st.merged, st.Stats.Attempts, st.Stats.Failures, st.Stats.EntriesWritten, anyof(*blockWriter), anyof(*tableIter), anyof(*indexedTableRefIter), anyof(*blockIter), retired, rdClosed, taken, yielded, seekOn, seekName, seekIdx, mergedFirst, mergedLast, mergedExp, anyof([]byte), anyof([]uint32), anyof([]indexRecord), pv
+//@   modifies held, ownsTmp, tblExists, fileClosed, fileOf, listNames, listLen, lastReadNames, lastReadLen, lockFails, wNames, wLen, appends, commits, buflen, bufdata, lastDelta, lastSought, st.stack, st.merged, st.Stats.Attempts, st.Stats.Failures, st.Stats.EntriesWritten, anyof(*blockWriter), anyof(*tableIter), anyof(*indexedTableRefIter), anyof(*blockIter), retired, rdClosed, taken, yielded, seekOn, seekName, seekIdx, mergedFirst, mergedLast, mergedExp, anyof([]byte), anyof([]uint32), anyof([]indexRecord), pv, stream
 //@   ensures heldSubset() && tmpSubset() && appends == old(appends) && wfStack(st)
 //@   ensures[no-lock-failure] result != ErrLockFailure
 //@   ensures commits <= old(commits) + 1
@@ -1718,7 +1733,7 @@ package reftable
 //@ func (*Stack).CompactAll
 //@   props C04 C08 C16 C10 C07 C13
 //@   requires wfStack(st) && !held[listLock()] && len(st.stack) > 0
-//@   modifies held, ownsTmp, tblExists, fileClosed, fileOf, listNames, listLen, lastReadNames, lastReadLen, lockFails, wNames, wLen, appends, commits, buflen, bufdata, lastDelta, lastSought, st.stack, st.merged, st.Stats.Attempts, st.Stats.EntriesWritten, anyof(*blockWriter), anyof(*tableIter), anyof(*indexedTableRefIter), anyof(*blockIter), retired, rdClosed, taken, yielded, seekOn, seekName, seekIdx, mergedFirst, mergedLast, mergedExp, anyof([]byte), anyof([]uint32), anyof([]indexRecord), pv
+//@   modifies held, ownsTmp, tblExists, fileClosed, fileOf, listNames, listLen, lastReadNames, lastReadLen, lockFails, wNames, wLen, appends, commits, buflen, bufdata, lastDelta, lastSought, st.stack, st.merged, st.Stats.Attempts, st.Stats.EntriesWritten, anyof(*blockWriter), anyof(*tableIter), anyof(*indexedTableRefIter), anyof(*blockIter), retired, rdClosed, taken, yielded, seekOn, seekName, seekIdx, mergedFirst, mergedLast, mergedExp, anyof([]byte), anyof([]uint32), anyof([]indexRecord), pv, stream
 //@   ensures heldSubset() && tmpSubset() && appends == old(appends) && wfStack(st)
 
 // Assumption about the caller-supplied transaction function (see (*Addition).Add#write).
@@ -1731,7 +1746,7 @@ package reftable
 //@ func (*Stack).add
 //@   props C04 C08 C09 C16 C10
 //@   requires wfStack(st) && !held[listLock()]
-//@   modifies held, ownsTmp, tblExists, fileClosed, fileOf, listNames, listLen, lastReadNames, lastReadLen, lockFails, wNames, wLen, appends, commits, buflen, bufdata, lastDelta, lastSought, st.stack, st.merged, anyof(*blockWriter), anyof(*Addition), retired, rdClosed, taken, seekOn, seekName, seekIdx, yielded, anyof([]byte), anyof([]uint32), anyof([]indexRecord), pv
+//@   modifies held, ownsTmp, tblExists, fileClosed, fileOf, listNames, listLen, lastReadNames, lastReadLen, lockFails, wNames, wLen, appends, commits, buflen, bufdata, lastDelta, lastSought, st.stack, st.merged, anyof(*blockWriter), anyof(*Addition), retired, rdClosed, taken, seekOn, seekName, seekIdx, yielded, anyof([]byte), anyof([]uint32), anyof([]indexRecord), pv, stream
 //@   ensures[locks-released] heldSubset()
 //@   ensures[no-temp] tmpSubset()
 //@   ensures[at-most-one] appends <= old(appends) + 1 && appends >= old(appends)
@@ -1741,7 +1756,7 @@ package reftable
 //@ func (*Stack).Add
 //@   props C04 C08 C09 C16 C10
 //@   requires wfStack(st) && !held[listLock()]
-//@   modifies held, ownsTmp, tblExists, fileClosed, fileOf, listNames, listLen, lastReadNames, lastReadLen, lockFails, wNames, wLen, appends, commits, buflen, bufdata, lastDelta, lastSought, st.stack, st.merged, st.Stats.Attempts, st.Stats.Failures, st.Stats.EntriesWritten, anyof(*blockWriter), anyof(*tableIter), anyof(*indexedTableRefIter), anyof(*blockIter), anyof(*Addition), retired, rdClosed, taken, yielded, seekOn, seekName, seekIdx, mergedFirst, mergedLast, mergedExp, anyof([]byte), anyof([]uint32), anyof([]indexRecord), pv
+//@   modifies held, ownsTmp, tblExists, fileClosed, fileOf, listNames, listLen, lastReadNames, lastReadLen, lockFails, wNames, wLen, appends, commits, buflen, bufdata, lastDelta, lastSought, st.stack, st.merged, st.Stats.Attempts, st.Stats.Failures, st.Stats.EntriesWritten, anyof(*blockWriter), anyof(*tableIter), anyof(*indexedTableRefIter), anyof(*blockIter), anyof(*Addition), retired, rdClosed, taken, yielded, seekOn, seekName, seekIdx, mergedFirst, mergedLast, mergedExp, anyof([]byte), anyof([]uint32), anyof([]indexRecord), pv, stream
 //@   ensures[locks-released] heldSubset()
 //@   ensures[no-temp] tmpSubset()
 //@   ensures[at-most-one] appends <= old(appends) + 1 && appends >= old(appends)
@@ -1808,7 +1823,7 @@ package reftable
 //@   props C16 C08 C10
 //@   requires wfStack(st) && !held[listLock()] && (forall i int :: 0 <= i && i < len(st.stack) ==> st.stack[i].src != nil)
 //@   nopanic
-//@   modifies held, ownsTmp, tblExists, fileClosed, fileOf, listNames, listLen, lastReadNames, lastReadLen, lockFails, buflen, bufdata, lastDelta, lastSought, st.stack, st.merged, anyof(*Addition), rdClosed, seekOn, seekName, seekIdx, yielded
+//@   modifies held, ownsTmp, tblExists, fileClosed, fileOf, listNames, listLen, lastReadNames, lastReadLen, lockFails, buflen, bufdata, lastDelta, lastSought, st.stack, st.merged, anyof(*Addition), rdClosed, seekOn, seekName, seekIdx, yielded, stream
 //@   ensures[locks-released] heldSubset()
 //@   ensures[no-temp] tmpSubset()
 //@   loop 1 invariant[set] -1 <= rangeindex && rangeindex < len(st.stack) && namesMatch(st) && (forall i int :: 0 <= i && i <= rangeindex ==> haskey(names, listNames[i]))
@@ -1869,9 +1884,12 @@ package reftable
 //@ ghost logsDone bool
 
 //@ func (*Iterator).NextRef
-//@   props C19 C07 C13
+//@   props C19 C07 C13 C12
 //@   requires it != nil && iref(it.impl) != 0 && ref != nil
-//@   modifies buflen, bufdata, lastDelta, ref.ALLFIELDS, anyof(*tableIter), anyof(*indexedTableRefIter), anyof(*blockIter), yielded
+//@   ensures[stream-yields-the-least-remaining-name] old(itRef[iref(it.impl)]) && result0 ==> old(remaining(iref(it.impl), ref.RefName)) && (forall m string :: old(remaining(iref(it.impl), m)) ==> m >= ref.RefName)
+//@   ensures[stream-advances] old(itRef[iref(it.impl)]) && result0 ==> itRef[iref(it.impl)] && itTab[iref(it.impl)] == old(itTab[iref(it.impl)]) && itLo[iref(it.impl)] == ref.RefName && itStrict[iref(it.impl)]
+//@   ensures[stream-ends-only-when-empty] old(itRef[iref(it.impl)]) && !result0 && result1 == nil ==> (forall m string :: !old(remaining(iref(it.impl), m)))
+//@   modifies buflen, bufdata, lastDelta, ref.ALLFIELDS, anyof(*tableIter), anyof(*indexedTableRefIter), anyof(*blockIter), yielded, stream
 //@   sets yRefSeq = yRefSeq + 1 if result0
 //@   sets yRefName = ref.RefName if result0
 //@   sets yRefIdx = ref.UpdateIndex if result0
@@ -1888,7 +1906,7 @@ package reftable
 //@ func (*Iterator).NextLog
 //@   props C19 C07 C13
 //@   requires it != nil && iref(it.impl) != 0 && log != nil
-//@   modifies buflen, bufdata, lastDelta, log.ALLFIELDS, anyof(*tableIter), anyof(*indexedTableRefIter), anyof(*blockIter), yielded
+//@   modifies buflen, bufdata, lastDelta, log.ALLFIELDS, anyof(*tableIter), anyof(*indexedTableRefIter), anyof(*blockIter), yielded, stream
 //@   sets yLogSeq = yLogSeq + 1 if result0
 //@   sets yLogName = log.RefName if result0
 //@   sets yLogIdx = log.UpdateIndex if result0
@@ -1907,13 +1925,14 @@ package reftable
 
 //@ iface Table.SeekRef
 //@   params refName
-//@   modifies buflen, bufdata, lastDelta, anyof(*tableIter), anyof(*indexedTableRefIter), anyof(*blockIter), yielded
+//@   modifies buflen, bufdata, lastDelta, anyof(*tableIter), anyof(*indexedTableRefIter), anyof(*blockIter), yielded, stream
 //@   sets lastSought = refName
 //@   ensures result1 == nil ==> result0 != nil && fresh(result0) && iref(result0.impl) != 0
+//@   ensures[stream-starts-at-the-key] result1 == nil ==> itRef[iref(result0.impl)] && itTab[iref(result0.impl)] == iref(self) && itLo[iref(result0.impl)] == refName && !itStrict[iref(result0.impl)]
 
 //@ iface Table.RefsFor
 //@   params oid
-//@   modifies buflen, bufdata, lastDelta, lastSought, anyof(*tableIter), anyof(*indexedTableRefIter), anyof(*blockIter), seekOn, seekName, seekIdx, yielded
+//@   modifies buflen, bufdata, lastDelta, lastSought, anyof(*tableIter), anyof(*indexedTableRefIter), anyof(*blockIter), seekOn, seekName, seekIdx, yielded, stream
 //@   ensures result1 == nil ==> result0 != nil && iref(result0.impl) != 0
 
 // C11: a record is returned only if its value or peeled value is the object id asked for; on a merged view
@@ -1922,7 +1941,7 @@ package reftable
 //@ func (*filteringRefIterator).Next
 //@   props C11 C19
 //@   requires fri != nil && iref(fri.it) != 0 && istype(rec, *RefRecord) && iref(rec) != 0 && (fri.doubleCheck ==> iref(fri.tab) != 0)
-//@   modifies buflen, bufdata, lastDelta, lastSought, rec, anyof(*tableIter), anyof(*indexedTableRefIter), anyof(*blockIter), seekOn, seekName, seekIdx, yielded
+//@   modifies buflen, bufdata, lastDelta, lastSought, rec, anyof(*tableIter), anyof(*indexedTableRefIter), anyof(*blockIter), seekOn, seekName, seekIdx, yielded, stream
 //@   ensures[points-at-oid] result0 ==> bytesEq(asptr(rec, *RefRecord).Value, old(fri.oid)) || bytesEq(asptr(rec, *RefRecord).TargetValue, old(fri.oid))
 //@   ensures[double-check-name] result0 && old(fri.doubleCheck) ==> asptr(rec, *RefRecord).RefName == lastSought
 //@   loop 1 invariant fri != nil && allocated(fri) && allocated(iref(rec))
@@ -1931,7 +1950,116 @@ package reftable
 //@ func (*Merged).RefsFor
 //@   props C11 C19
 //@   requires m != nil && (forall i int :: 0 <= i && i < len(m.stack) ==> m.stack[i] != nil)
-//@   modifies buflen, bufdata, lastDelta, lastSought, anyof(*tableIter), anyof(*indexedTableRefIter), anyof(*blockIter), seekOn, seekName, seekIdx, yielded
+//@   modifies buflen, bufdata, lastDelta, lastSought, anyof(*tableIter), anyof(*indexedTableRefIter), anyof(*blockIter), seekOn, seekName, seekIdx, yielded, stream
 //@   ensures[double-checked] result1 == nil ==> result0 != nil && istype(result0.impl, *filteringRefIterator) && asptr(result0.impl, *filteringRefIterator).doubleCheck && iref(asptr(result0.impl, *filteringRefIterator).tab) == m && istype(asptr(result0.impl, *filteringRefIterator).tab, *Merged) && asptr(result0.impl, *filteringRefIterator).oid == oid
 //@   ensures[merged-candidates] result1 == nil ==> istype(asptr(result0.impl, *filteringRefIterator).it, *mergedIter) && asptr(asptr(result0.impl, *filteringRefIterator).it, *mergedIter).typ == 'r' && len(asptr(asptr(result0.impl, *filteringRefIterator).it, *mergedIter).stack) == len(m.stack)
 //@   loop 1 invariant -1 <= rangeindex && rangeindex < len(m.stack) && mit != nil && fresh(mit) && mit.typ == 'r' && len(mit.pq.heap) == 0 && cap(mit.pq.heap) == 0 && len(mit.stack) == rangeindex + 1 && (mit.stack == nil || fresh(mit.stack)) && (mit.names == nil || fresh(mit.names)) && (ref(mit.stack) != ref(mit.names) || ref(mit.stack) == 0)
+
+
+// ---------------------------------------------------------------------------------------------
+// refname.go (C12): name rules against the abstract set of live refs
+// ---------------------------------------------------------------------------------------------
+
+//@ spec hasPrefix(s string, p string) bool = len(p) <= len(s) && s[0:len(p)] == p
+//@ spec sortedStr(a []string) bool = forall i int, j int :: 0 <= i && i < j && j < len(a) ==> a[i] <= a[j]
+//@ spec inList(a []string, x string) bool = exists i int :: 0 <= i && i < len(a) && a[i] == x
+// facts about the byte-wise order of strings (assumed; the string theory of rtv has no induction):
+//@ axiom prefixIsLowerBound: forall s string, p string :: hasPrefix(s, p) ==> s >= p
+//@ axiom prefixInterval: forall p string, s string, t string :: p <= s && s <= t && hasPrefix(t, p) ==> hasPrefix(s, p)
+
+//@ extern sort.SearchStrings
+//@   params a, x
+//@   pure
+//@   ensures 0 <= result && result <= len(a)
+//@   ensures sortedStr(a) ==> (forall i int :: 0 <= i && i < result ==> a[i] < x) && (result < len(a) ==> a[result] >= x)
+
+// C12: the resulting view has a ref called name iff the transaction adds it, or the table shows it and the transaction
+// does not delete it.
+//@ func hasRef
+//@   props C12
+//@   requires iref(tab) != 0 && sortedStr(additions)
+//@   modifies buflen, bufdata, lastDelta, lastSought, seekOn, seekName, seekIdx, yielded, stream, anyof(*tableIter), anyof(*indexedTableRefIter), anyof(*blockIter)
+//@   ensures[exact] result1 == nil ==> (result0 <==> (inList(additions, name) || (!deletions[name] && liveIn(iref(tab), name))))
+
+// nothing of the resulting view lies below the prefix p (kept opaque in the callers: they only pass it on)
+//@ spec opaque noneBelow(tab Table, additions []string, deletions map[string]bool, p string) bool = (forall k int :: 0 <= k && k < len(additions) ==> !hasPrefix(additions[k], p)) && (forall m string :: liveIn(iref(tab), m) && !deletions[m] ==> !hasPrefix(m, p))
+// C12: the resulting view has a ref below prefix iff the transaction adds one, or the table shows one that the
+// transaction does not delete - deleted names are skipped, they neither end the search nor count.
+//@ func hasRefWithPrefix
+//@   props C12
+//@   requires iref(tab) != 0 && sortedStr(additions)
+//@   modifies buflen, bufdata, lastDelta, lastSought, seekOn, seekName, seekIdx, yielded, stream, anyof(*tableIter), anyof(*indexedTableRefIter), anyof(*blockIter)
+//@   ensures[found-means-there-is-one] result1 == nil && result0 ==> (exists i int :: 0 <= i && i < len(additions) && hasPrefix(additions[i], prefix)) || (exists m string :: liveIn(iref(tab), m) && !deletions[m] && hasPrefix(m, prefix))
+//@   ensures[not-found-means-none-is-added] result1 == nil && !result0 ==> (forall i int :: 0 <= i && i < len(additions) ==> !hasPrefix(additions[i], prefix))
+//@   ensures[not-found-means-none-is-left-in-the-table] result1 == nil && !result0 ==> (forall m string :: liveIn(iref(tab), m) && !deletions[m] ==> !hasPrefix(m, prefix))
+//@   ensures[not-found-means-nothing-below] result1 == nil && !result0 ==> noneBelow(tab, additions, deletions, prefix)
+//@   loop 1 invariant[stream] it != nil && iref(it.impl) != 0 && itRef[iref(it.impl)] && itTab[iref(it.impl)] == iref(tab) && itLo[iref(it.impl)] >= prefix && (forall i int :: 0 <= i && i < len(additions) ==> !hasPrefix(additions[i], prefix))
+//@   loop 1 invariant[skipped-are-deleted] forall m string :: liveIn(iref(tab), m) && m >= prefix && !remaining(iref(it.impl), m) ==> deletions[m]
+
+// C12: a name is valid iff none of its components (the pieces between slashes) is empty, "." or "..".
+//@ spec ncomp(s string) int
+//@ spec comp(s string, i int) string
+//@ spec validName(s string) bool = forall i int :: 0 <= i && i < ncomp(s) ==> comp(s, i) != "" && comp(s, i) != "." && comp(s, i) != ".."
+//@ extern strings.Split
+//@   params s, sep
+//@   pure
+//@   ensures sep == "/" ==> len(result) == ncomp(s) && (forall i int :: 0 <= i && i < len(result) ==> result[i] == comp(s, i))
+//@   ensures result == nil || fresh(result)
+//@ func validateRefname
+//@   props C12
+//@   pure
+//@   ensures[exact] result <==> validName(name)
+//@   loop 1 invariant -1 <= rangeindex && (forall i int :: 0 <= i && i <= rangeindex ==> comp(name, i) != "" && comp(name, i) != "." && comp(name, i) != "..")
+
+// the directory part of a name without its trailing slash ("a/b/c" -> "a/b", "a" -> ""), and the ancestor relation it
+// generates; path.Split and strings.TrimSuffix are assumed to compute it
+//@ spec dirPart(a string) string
+//@ spec trimSlash(d string) string
+//@ spec parentOf(a string) string = trimSlash(dirPart(a))
+//@ spec ancestorOf(d string, a string) bool
+//@ axiom ancestorStep: forall d string, a string :: ancestorOf(d, a) && a != "" ==> d == parentOf(a) || ancestorOf(d, parentOf(a))
+//@ axiom ancestorBase: forall d string :: !ancestorOf(d, "")
+//@ extern path.Split
+//@   params p
+//@   pure
+//@   ensures result0 == dirPart(p)
+//@ extern strings.TrimSuffix
+//@   params s, suffix
+//@   pure
+//@   ensures suffix == "/" ==> result == trimSlash(s)
+
+// the view that results from the transaction: what it adds, plus what the table shows and it does not delete
+//@ spec inResult(tab Table, additions []string, deletions map[string]bool, n string) bool = inList(additions, n) || (!deletions[n] && liveIn(iref(tab), n))
+
+// C12: a transaction is accepted only if every name it adds is valid, has nothing below it in the resulting view, and
+// none of its ancestor directories is a ref of the resulting view.
+//@ func validateAddition
+//@   props C12
+//@   requires iref(tab) != 0 && sortedStr(additions)
+//@   modifies buflen, bufdata, lastDelta, lastSought, seekOn, seekName, seekIdx, yielded, stream, anyof(*tableIter), anyof(*indexedTableRefIter), anyof(*blockIter)
+//@   ensures[accepted-names-are-valid] result == nil ==> (forall i int :: 0 <= i && i < len(additions) ==> validName(additions[i]))
+//@   ensures[accepted-names-have-nothing-below] result == nil ==> (forall i int :: 0 <= i && i < len(additions) ==> noneBelow(tab, additions, deletions, additions[i] + "/"))
+//@   ensures[accepted-names-have-no-ref-above] result == nil ==> (forall i int, d string :: 0 <= i && i < len(additions) && ancestorOf(d, additions[i]) ==> !inResult(tab, additions, deletions, d))
+//@   loop 1 frame
+//@   loop 2 frame
+//@   loop 1 invariant[o-idx] -1 <= rangeindex && rangeindex < len(additions)
+//@   loop 1 invariant[o-valid] forall i int :: 0 <= i && i <= rangeindex ==> validName(additions[i])
+//@   loop 1 invariant[o-below] (forall i int :: 0 <= i && i <= rangeindex ==> noneBelow(tab, additions, deletions, additions[i] + "/"))
+//@   loop 1 invariant[o-above] forall i int, d string :: 0 <= i && i <= rangeindex && ancestorOf(d, additions[i]) ==> !inResult(tab, additions, deletions, d)
+//@   loop 2 invariant[i-idx] -1 <= rangeindex && rangeindex + 1 < len(additions)
+//@   loop 2 invariant[i-valid] forall i int :: 0 <= i && i <= rangeindex + 1 ==> validName(additions[i])
+//@   loop 2 invariant[i-below] (forall i int :: 0 <= i && i <= rangeindex + 1 ==> noneBelow(tab, additions, deletions, additions[i] + "/"))
+//@   loop 2 invariant[i-above-earlier] forall i int, d string :: 0 <= i && i <= rangeindex && ancestorOf(d, additions[i]) ==> !inResult(tab, additions, deletions, d)
+//@   loop 2 invariant[i-above-current] forall d string :: ancestorOf(d, additions[rangeindex + 1]) && !ancestorOf(d, a) ==> !inResult(tab, additions, deletions, d)
+
+// C12: the records of a new table, in key order, are split into the names they add and the names they delete, and the
+// transaction is accepted only if every added name is valid (the other two clauses are validateAddition's, on the same lists).
+//@ func validateRefRecordAddition
+//@   props C12
+//@   requires iref(tab) != 0
+//@   requires[records-in-key-order] forall i int, j int :: 0 <= i && i < j && j < len(refs) ==> refs[i].RefName < refs[j].RefName
+//@   modifies buflen, bufdata, lastDelta, lastSought, seekOn, seekName, seekIdx, yielded, stream, anyof(*tableIter), anyof(*indexedTableRefIter), anyof(*blockIter)
+//@   ensures[accepted-names-are-valid] result == nil ==> (forall k int :: 0 <= k && k < len(refs) && !(refs[k].Value == nil && refs[k].TargetValue == nil && refs[k].Target == "") ==> validName(refs[k].RefName))
+//@   loop 1 invariant[idx] -1 <= rangeindex && rangeindex < len(refs) && (additions == nil || fresh(additions)) && len(additions) <= rangeindex + 1
+//@   loop 1 invariant[sorted] sortedStr(additions) && (forall i int :: 0 <= i && i < len(additions) ==> (exists k int :: 0 <= k && k <= rangeindex && additions[i] == refs[k].RefName))
+//@   loop 1 invariant[all-added] forall k int :: 0 <= k && k <= rangeindex && !(refs[k].Value == nil && refs[k].TargetValue == nil && refs[k].Target == "") ==> inList(additions, refs[k].RefName)
